@@ -8,13 +8,14 @@
 EXTENDS Tape, Json, IOUtils
 
 Rec == ndJsonDeserialize(IOEnv.TRACE)
-K == RealK
-
-VARIABLES l, tape, ob, armed, junk, autoStopped, cursor, bad
-tvars == <<l, tape, ob, armed, junk, autoStopped, cursor, bad>>
+VARIABLES l, tape, ob, armed, junk, autoStopped, cursor, slack, bad
+tvars == <<l, tape, ob, armed, junk, autoStopped, cursor, slack, bad>>
+\* the real constants, with the measuring uncertainty announced by the run ("tape" event; 0 unless the signal was
+\* sampled at the instruction boundaries of a running machine)
+K == [RealK EXCEPT !.slack = slack]
 
 TraceInit == l = 1 /\ tape = <<>> /\ ob = ObInit /\ armed = FALSE /\ junk = 0 /\ autoStopped = TRUE
-             /\ cursor = 1 /\ bad = 0
+             /\ cursor = 1 /\ slack = 0 /\ bad = 0
 
 Fresh == ob' = ObInit /\ armed' = FALSE /\ junk' = 0
 Report(kind, info) == PrintT(<<"MISMATCH", l, kind, info>>) /\ bad' = bad + 1
@@ -93,7 +94,8 @@ Step(e) ==
             /\ UNCHANGED <<tape, ob, armed, junk, cursor>>
       [] e.ev = "ldbytes" -> LdEvent(e) /\ UNCHANGED <<tape, ob, armed, junk, autoStopped>>
 
-TraceNext == l <= Len(Rec) /\ Step(Rec[l]) /\ l' = l + 1
+NextSlack(e) == IF e.ev = "tape" THEN (IF "slack" \in DOMAIN e THEN e.slack ELSE 0) ELSE slack
+TraceNext == l <= Len(Rec) /\ Step(Rec[l]) /\ slack' = NextSlack(Rec[l]) /\ l' = l + 1
 TraceSpec == TraceInit /\ [][TraceNext]_tvars
 TraceAccepted ==
     LET d == TLCGet("stats").diameter IN
